@@ -18,7 +18,7 @@ ASSUMPTIONS = [
     '(for those only NOJUMP/ONCE/HPRIO/STOP/NOREENTRY are asserted)',
     'a catch-all probe handler with priority 1000 marks the dispatch start of every event',
 ]
-REQUIRED = ['stop_called_by_a_handler_that_does_not_take_the_event', 'stopping_handler_returns_a_generator', 'pass_with_mixed_priorities', 'fired_from_handler_during_pass', 'stop_called', 'nested_flush', 'equal_priority_ties',
+REQUIRED = ['stopping_handler_left_with_SystemExit_or_KeyboardInterrupt', 'stop_called_by_a_handler_that_does_not_take_the_event', 'stopping_handler_returns_a_generator', 'pass_with_mixed_priorities', 'fired_from_handler_during_pass', 'stop_called', 'nested_flush', 'equal_priority_ties',
             'negative_and_float_priorities', 'nested_flush_on_last_of_batch', 'multi_channel_event', 'stop_then_raise',
             'manager_with_many_events_behind_it', 'events_pending_on_a_component_that_joins_the_tree', 'event_object_fired_again_by_its_own_handler']
 REQUIRED_OBLIGATIONS = ['ORD', 'NOJUMP', 'NOREENTRY', 'HPRIO', 'STOP', 'ONCE']
@@ -166,6 +166,9 @@ def evaluate(case, w):
         elif k == 'PX':
             if entry[1] in stops:
                 marks.add('stop_then_raise')
+        elif k in ('SYSEXIT', 'KBINT'):
+            if entry[1] in stops:
+                marks.add('stopping_handler_left_with_SystemExit_or_KeyboardInterrupt')
         elif k == 'RG':
             if entry[1] in stops:
                 marks.add('stopping_handler_returns_a_generator')
@@ -236,6 +239,13 @@ def corpus():
             dict(HD(6, 'b', 2, [['fire', EV('a', 0)], ['stop'], ['ret', 'v']]), sig=sig), dict(HD(7, 'b', -0.5, []), sig=sig), HD(8, 'b', -2, []),
             dict(HD(9, 'c', 0, [['stop'], ['raise']]), sig=sig), dict(HD(10, 'c', 0, []), sig=sig), dict(HD(11, 'c', -1, []), sig=sig)],
             'passes': [[EV('a'), EV('b'), EV('c'), EV('a', 1)], [EV('c', -1), EV('b', 2)]]})
+    # stop() by a handler that then leaves with SystemExit / KeyboardInterrupt (a shutdown handler): stopped is stopped; the exit alone stops nothing
+    cs.append({'name': 'stop-then-exit', 'handlers': [
+        HD(1, 'a', 10, [['stop'], ['sysexit', 3]]), HD(2, 'a', 5, []), HD(3, 'a', -1.5, []),
+        HD(4, 'b', 2, [['stop'], ['kbint']]), HD(5, 'b', 2, []), HD(6, 'b', 0, []),
+        HD(7, 'c', 1, [['sysexit', None]]), HD(8, 'c', 0, [['stop'], ['sysexit', None]]), HD(9, 'c', -1, []),
+        dict(HD(10, 'd', 1, [['stop'], ['sysexit', 'bye']]), sig='noevent'), HD(11, 'd', 0.5, [])],
+        'passes': [[EV('a'), EV('b'), EV('c'), EV('d', 1)], [EV('d'), EV('c', -1), EV('a', 2)]]})
     # stop() followed by an exception in the same handler still stops the event; a raise alone does not
     cs.append({'name': 'stop-then-raise', 'handlers': [
         HD(1, 'a', 5, []), HD(2, 'a', 2.5, [['stop'], ['raise']]), HD(3, 'a', 1, []), HD(4, 'a', -0.5, []),
@@ -309,7 +319,9 @@ def gen_case(rng):
                     elif r < 0.82:
                         body.append(['flush'])
                 r = rng.random()
-                if r < 0.12:
+                if r < 0.03:
+                    body.append(rng.choice([['sysexit', None], ['sysexit', 3], ['kbint']]))   # ... or leave with SystemExit / KeyboardInterrupt
+                elif r < 0.12:
                     body.append(['raise'])   # a handler may stop the event and then fail: the stop still holds
                 elif r < 0.3:
                     # ... or return something: a value, or a generator object it delegates the rest of its work to
